@@ -43,6 +43,12 @@ CHECKS = {
             "3.C13", "np.random / random reached through module-level names (seams); redraw loop cut by a per-label call budget (rejected redraws leave the chain state unchanged)"),
     "C14": (EX, "E3", "exhaustive enumeration of every answer of every draw of each generator under scripted random sources (k-subsets, coins, a menu for exponential draws), structural contract checked on every execution; seed oracle: random.seed(seed) precedes the first draw, plus the real generator run twice per seed",
             "3.C14", "redraw loops cut by call budgets; exponential draws from a 3-vector menu (alphabet limit)"),
+    "C15": (EX, "E4+E3", "bounded-exhaustive enumeration: closed forms (Poisson parameters, kappa, expected degrees / sizes, C) against brute force over ALL hyperedges for u on the full grid {0,1/2,1}^(NxK) and every symmetric w over {0,1,2}; fit on small hypergraphs x every configuration x n_iter 1..5 with the initial draw scripted from a menu: supplied parameters bit-identical, finiteness/sign/symmetry, exact Poisson log-likelihood non-decreasing (w_prior>0: known finding, attributed only when the penalised objective still ascends)",
+            "3.C15", "polynomial-degree argument extends the grid to all reals only if the implementation is a polynomial in u,w (it uses @,*,sum); EM start values from a finite menu"),
+    "C16": (MC, "E3", "stateless model checking of the sampler's chain through its public generator: every ordered pair draw, every reshuffle subset, both outcomes of the MH coin, quantile vectors from a menu; initial hypergraphs and every (degree, size) sequence pair for N=4 with every greedy tie-break; both numpy Generators are handed out by a recording factory so that any consumed draw from an unseeded generator is a violation, confirmed with real samplers",
+            "3.C16", "np.random.default_rng reached only via the module-level name np; quantile/Poisson/normal draws from finite menus"),
+    "C17": (EX, "E4+E3", "bounded-exhaustive enumeration with a scripted RandomState: the node-update permutation of every EM iteration is a schedule (all N! orders for N<=4, or <=1-2 non-identity orders among all iterations), initial matrices from a menu; shape/sign/isolated rows, maxL bookkeeping, per-realisation ascent, log-likelihood recomputed from its definition by brute-force elementary symmetric polynomials; real generators for determinism, HySC one-hot, and every order of two fits on one object",
+            "3.C17", "KMeans(random_state=int) and numpy.linalg deterministic; the Lagrange-multiplier search is observed (not altered) through a class-attribute seam to attribute the known finding"),
 }
 PENDING = {}
 for i in range(1, 21):
